@@ -107,8 +107,8 @@ static __thread bool in_tracker = false;
 struct TrackerScope { bool prev; TrackerScope() : prev(in_tracker) { in_tracker = true; } ~TrackerScope() { in_tracker = prev; } };
 // memory with a name of its own (libc static buffers)
 struct Labelled { uintptr_t lo, hi; const char * label; };
-static Labelled labelled[8]; static int nlabelled = 0;
-static void label_range(const void * p, size_t n, const char * label) { uintptr_t a = (uintptr_t)p; for (int i = 0; i < nlabelled; i++) if (labelled[i].lo == a) return; if (nlabelled < 8) labelled[nlabelled++] = Labelled{a, a + n, label}; }
+static Labelled labelled[16]; static int nlabelled = 0;
+static void label_range(const void * p, size_t n, const char * label) { uintptr_t a = (uintptr_t)p; for (int i = 0; i < nlabelled; i++) if (labelled[i].lo == a) return; if (nlabelled < 16) labelled[nlabelled++] = Labelled{a, a + n, label}; }
 static inline size_t hidx(uintptr_t g) { uint64_t x = g * 0x9e3779b97f4a7c15ULL; return (size_t)(x >> 43) & (NCELL - 1); }
 static Cell * cell_find(uintptr_t g, bool insert) {
 	size_t i = hidx(g);
@@ -366,6 +366,42 @@ extern "C" {
 		thr_range(r, sizeof(struct tm), true, PC);
 		if (g_thr.enabled && g_thr.current >= 0) thr_yield_point(PC, "localtime-ret");
 		return r;
+	}
+	// The rest of libc's process-global hidden state a C library may be tempted to use.  The unchanged library calls none of
+	// them; they are here so that a change which starts to (strtok in a path parser, gmtime/ctime for a date, setlocale around a
+	// number format, setenv) is seen as what it is: a write to state shared by all threads.  Result buffers are labelled where
+	// libc returns them; state without an address (strtok's saved pointer, the locale, the environment) gets a pseudo-location.
+#define HIDDEN_STATE(ret, name, params, args, label, is_write)                                                        \
+	ret name params {                                                                                                  \
+		static ret (*real) params = nullptr;                                                                           \
+		if (!real) real = (ret (*) params)dlsym(RTLD_NEXT, #name);                                                    \
+		static char pseudo[8];                                                                                         \
+		if (g_thr.enabled && g_thr.current >= 0) { thr_yield_point(PC, #name); label_range(pseudo, sizeof pseudo, label); thr_range(pseudo, sizeof pseudo, is_write, PC); } \
+		return real args;                                                                                              \
+	}
+#define STATIC_RESULT(ret, name, params, args, label, n)                                                              \
+	ret name params {                                                                                                  \
+		static ret (*real) params = nullptr;                                                                           \
+		if (!real) real = (ret (*) params)dlsym(RTLD_NEXT, #name);                                                    \
+		if (g_thr.enabled && g_thr.current >= 0) thr_yield_point(PC, #name);                                           \
+		ret r = real args;                                                                                             \
+		if (r && g_thr.enabled && g_thr.current >= 0) { label_range(r, n, label); thr_range(r, n, true, PC); thr_yield_point(PC, #name "-ret"); } \
+		return r;                                                                                                      \
+	}
+	STATIC_RESULT(struct tm *, gmtime, (const time_t * t), (t), "libc:gmtime_static_buffer", sizeof(struct tm))
+	STATIC_RESULT(char *, ctime, (const time_t * t), (t), "libc:ctime_static_buffer", 26)
+	STATIC_RESULT(char *, asctime, (const struct tm * t), (t), "libc:asctime_static_buffer", 26)
+	HIDDEN_STATE(char *, strtok, (char * str, const char * delim), (str, delim), "libc:strtok_saved_pointer", true)
+	HIDDEN_STATE(int, setenv, (const char * n, const char * v, int o), (n, v, o), "libc:environment", true)
+	HIDDEN_STATE(int, unsetenv, (const char * n), (n), "libc:environment", true)
+	HIDDEN_STATE(int, putenv, (char * str), (str), "libc:environment", true)
+	HIDDEN_STATE(char *, tmpnam, (char * buf), (buf), "libc:tmpnam_static_buffer", true)
+	char * setlocale(int cat, const char * loc) {
+		static char * (*real)(int, const char *) = nullptr;
+		if (!real) real = (char * (*)(int, const char *))dlsym(RTLD_NEXT, "setlocale");
+		static char pseudo[8];
+		if (g_thr.enabled && g_thr.current >= 0) { thr_yield_point(PC, "setlocale"); label_range(pseudo, sizeof pseudo, "libc:global_locale"); thr_range(pseudo, sizeof pseudo, loc != nullptr, PC); }
+		return real(cat, loc);
 	}
 }
 
